@@ -211,3 +211,143 @@ Fixpoint nts_exec (n : nat) (ops : list nts_op) (st : ntspool) : ntspool :=
   | NtsTrySpawn outs :: r => nts_exec n r (fst (nts_try_spawn n st outs))
   | NtsRemoved id :: r => nts_exec n r (nts_removed st id)
   end.
+
+(* ---- NTS pool: encoding for the correspondence check (harness/ntpd/c35n.rs) ----
+   The harness runs a key exchange server on a loopback port whose behaviour per accepted
+   connection is scripted; with enable_srv_resolution = false every loop iteration of try_spawn
+   makes exactly one connection attempt, so the script IS the list of oracle outcomes:
+     connection refused (listener closed)            -> KeNoLookup
+     answer naming server k (k resolves or not)      -> KeOk None k resolves
+     connection dropped / no common protocol         -> KeError
+     accepted and never answered (NTS_TIMEOUT, 5 s)  -> KeTimeout *)
+Definition nts_is_complete (n : nat) (st : ntspool) : bool := (n <=? length (ncurrent st))%nat.
+
+(* the number of connections the key exchange server accepts during one try_spawn with k loop
+   iterations (independent of the state: every outcome that does not end the loop uses up exactly
+   one iteration) *)
+Fixpoint nts_conns (k : nat) (outs : list ke_outcome) : Z :=
+  match k with
+  | O => 0
+  | S k' =>
+      match outs with
+      | [] | KeNoLookup :: _ => 0
+      | KeError :: _ => 1
+      | _ :: r => 1 + nts_conns k' r
+      end
+  end.
+
+Fixpoint enc_nsources (l : list (Z * Z)) : list Z :=
+  match l with [] => [] | (i, k) :: r => i :: k :: enc_nsources r end.
+
+(* per op: NtsTrySpawn -> [connections; n; (id name)*n; complete]   NtsRemoved -> [complete]
+   at the end: [|current_sources|; (id name)*] *)
+Fixpoint run_nts_ops (n : nat) (ops : list nts_op) (st : ntspool) : list Z :=
+  match ops with
+  | [] => Z.of_nat (length (ncurrent st)) :: enc_nsources (ncurrent st)
+  | NtsTrySpawn outs :: r =>
+      let s := nts_try_spawn n st outs in
+      nts_conns (n - length (ncurrent st)) outs :: Z.of_nat (length (snd s)) :: enc_nsources (snd s)
+        ++ b2z (nts_is_complete n (fst s)) :: run_nts_ops n r (fst s)
+  | NtsRemoved id :: r =>
+      let s := nts_removed st id in
+      b2z (nts_is_complete n s) :: run_nts_ops n r s
+  end.
+
+Definition run_nts (i : nat * list nts_op) : list Z :=
+  run_nts_ops (fst i) (snd i) (mkntspool [] 0).
+
+(* ---- NTS pool with enable_srv_resolution = true: lookup() takes resolutions from the queue
+   known_resolutions.  The harness replaces the queue before every try_spawn by scripted
+   resolutions (each with its own port and scripted server behaviour) that end with a plain
+   resolution whose port is closed, so the queue never runs empty without a connection error and
+   the DNS is never asked.  The queue determines the oracle outcomes of the loop iterations: ---- *)
+Inductive srv_beh :=
+| SbOk (ke_remote : Z) (resolves : bool)     (* key exchange completes *)
+| SbError                                    (* connection dropped / no common protocol *)
+| SbTimeout                                  (* never answered *)
+| SbRefused.                                 (* nothing listens at the resolved address *)
+(* a KeResolutionResult: the SRV record name (if any) and what happens at its address *)
+Definition srv_entry := (option Z * srv_beh)%type.
+
+(* the `while let Some(addr) = known_resolutions.pop_front()` loop of lookup(): resolutions whose
+   SRV name already has a source are dropped, so are those that cannot be connected to; the
+   result is the resolution connected to (None: queue exhausted) and the queue left *)
+Fixpoint srv_lookup (q : list srv_entry) (cur : list (Z * Z)) : option srv_entry * list srv_entry :=
+  match q with
+  | [] => (None, [])
+  | (srv, b) :: r =>
+      if match srv with Some s => has_remote s cur | None => false end then srv_lookup r cur
+      else match b with
+           | SbRefused => srv_lookup r cur
+           | _ => (Some (srv, b), r)
+           end
+  end.
+
+Definition srv_outcome (e : srv_entry) : ke_outcome :=
+  match snd e with
+  | SbOk remote resolves => KeOk (fst e) remote resolves
+  | SbError => KeError
+  | SbTimeout => KeTimeout
+  | SbRefused => KeNoLookup
+  end.
+
+(* the outcomes of the (at most k) loop iterations of one try_spawn and the queue afterwards; the
+   state between iterations is advanced with the model's own single iteration *)
+Fixpoint srv_outcomes (k : nat) (q : list srv_entry) (st : ntspool) : list ke_outcome * list srv_entry :=
+  match k with
+  | O => ([], q)
+  | S k' =>
+      match srv_lookup q (ncurrent st) with
+      | (None, r) => ([KeNoLookup], r)
+      | (Some e, r) =>
+          let o := srv_outcome e in
+          match o with
+          | KeError => ([o], r)
+          | _ => let res := srv_outcomes k' r (fst (nts_iter 1 [o] st)) in (o :: fst res, snd res)
+          end
+      end
+  end.
+
+Inductive srv_op := SrvTrySpawn (q : list srv_entry) | SrvRemoved (id : Z).
+
+(* like run_nts_ops, with the length of known_resolutions after each try_spawn in addition; the
+   spawner's step is nts_try_spawn on the outcomes the queue determines *)
+Fixpoint run_srv_ops (n : nat) (ops : list srv_op) (st : ntspool) : list Z :=
+  match ops with
+  | [] => Z.of_nat (length (ncurrent st)) :: enc_nsources (ncurrent st)
+  | SrvTrySpawn q :: r =>
+      let k := (n - length (ncurrent st))%nat in
+      let oq := srv_outcomes k q st in
+      let s := nts_try_spawn n st (fst oq) in
+      nts_conns k (fst oq) :: Z.of_nat (length (snd s)) :: enc_nsources (snd s)
+        ++ b2z (nts_is_complete n (fst s)) :: Z.of_nat (length (snd oq)) :: run_srv_ops n r (fst s)
+  | SrvRemoved id :: r =>
+      let s := nts_removed st id in
+      b2z (nts_is_complete n s) :: run_srv_ops n r s
+  end.
+
+Definition run_srv (i : nat * list srv_op) : list Z :=
+  run_srv_ops (fst i) (snd i) (mkntspool [] 0).
+
+(* both kinds of NTS pool case in one list for the checker *)
+Definition run_nts_any (i : nat * (list nts_op + list srv_op)) : list Z :=
+  match snd i with
+  | inl ops => run_nts (fst i, ops)
+  | inr ops => run_srv (fst i, ops)
+  end.
+Definition nts_case (n : nat) (ops : list nts_op) : nat * (list nts_op + list srv_op) := (n, inl ops).
+Definition srv_case (n : nat) (ops : list srv_op) : nat * (list nts_op + list srv_op) := (n, inr ops).
+
+(* ---- link between the functions compared with the code and nts_exec (lemmas in Proofs/Pool.v) ---- *)
+Definition nts_final (st : ntspool) : list Z :=
+  Z.of_nat (length (ncurrent st)) :: enc_nsources (ncurrent st).
+
+(* the oracle outcomes the scripted queues determine, as a history of the oracle model *)
+Fixpoint srv_to_nts (n : nat) (ops : list srv_op) (st : ntspool) : list nts_op :=
+  match ops with
+  | [] => []
+  | SrvTrySpawn q :: r =>
+      let outs := fst (srv_outcomes (n - length (ncurrent st)) q st) in
+      NtsTrySpawn outs :: srv_to_nts n r (fst (nts_try_spawn n st outs))
+  | SrvRemoved id :: r => NtsRemoved id :: srv_to_nts n r (nts_removed st id)
+  end.
